@@ -101,7 +101,7 @@ def _dup_parity_nets(nl):
     out = set()
 
     def has_dup(e):
-        if e[0] in ("xor", "xnor") and e[2][0] == "id" and e[2] == e[3]:
+        if e[0] in ("xor", "xnor") and e[2][0] in ("id", "c") and e[2] == e[3]:
             return True
         if e[0] == "not":
             return has_dup(e[2])
